@@ -152,4 +152,23 @@ def run(ctx, rep):
         rep.analysed(g)
         pp = list(g.calls('pathprint'))
         rep.check(bool(pp) and all('pool_dir' in g.expr(c.ops[3]) or 'dir' in g.expr(c.ops[3]) for c in pp), 'R-C20-5', '%s builds its paths from the pool directory argument' % fn, g.file, str([g.expr(c.ops[3]) for c in pp]), function=fn, construct='pool path')
+    # pool: an existing link is kept only if everything the re-creation would set is already equal (target and both time fields)
+    rep.rule('R-C20-5k', 'make_link keeps an existing pool link only when its target, mtime_sec and mtime_nsec all match', 1)
+    ml = P.fn('make_link')
+    keep = [c for c in ml.calls('pool_free')]
+    sym = list(ml.calls('symlink'))
+    okk = False
+    det = ''
+    for c in keep:
+        # the keep path: pool_free followed by return without reaching symlink
+        if sym and sym[0].id in ml.reach([c]):
+            continue
+        gs = guards_of(ml, c)
+        atoms = {(a.replace(' ', ''), p) for a, p in gs}
+        tgt = any(a.startswith('strcmp(') and 'found->linkto' in a.split(',', 1)[0] and 'linkto' in a.split(',', 1)[1] and not p for a, p in atoms)
+        sec = any(a in ('(found->mtime_sec==mtime_sec)',) and p for a, p in atoms)
+        nsec = any(a in ('(found->mtime_nsec==mtime_nsec)',) and p for a, p in atoms)
+        okk = tgt and sec and nsec
+        det = 'target compared: %s, mtime_sec: %s, mtime_nsec: %s' % (tgt, sec, nsec)
+    rep.check(okk, 'R-C20-5k', 'make_link keep-shortcut guard', ml.file, det, function='make_link', construct='keep shortcut')
     rep.extra['escaped_tag_names'] = n
